@@ -57,6 +57,14 @@ impl BindScope for BindNode {
         let lhs_change = self.lhs_change.borrow().upgrade()?;
         Some(lhs_change.height())
     }
+    #[cfg(cormacrelf_incremental_rs_verif)]
+    fn verif_lists_rhs_node(&self, id: NodeId) -> bool {
+        self.all_nodes_created_on_rhs
+            .borrow()
+            .iter()
+            .filter_map(|w| w.upgrade())
+            .any(|n| n.id() == id)
+    }
 }
 
 pub(crate) trait LhsChangeFn:
